@@ -37,6 +37,14 @@ CHECKS = {
     'C10': dict(engine='E1-kani', technique='bounded model checking (Kani/CBMC, CaDiCaL) of every generated Into<T>::into against a per-target oracle',
                 text='For every requested target, variant and value CBMC decides that into() returns the designated field (marker, sole field or unique same-typed field) passed through its per-target method, unchanged, or through Into.',
                 ref='DESIGN.md §4 C10'),
+    'C11': dict(engine='E2-applicability', technique='SAT/SMT (z3, cvc5 cross-check) over impl applicability encoded from the where-clauses educe really emits; models replayed through rustc',
+                text='For every generic request in the grammar the real expansion is obtained in-process and z3 decides, over all instantiations (which argument type implements which trait), that each emitted impl applies exactly when every delegated field type implements the trait plus the Self supertraits (W xor F unsat); companions are compared with their primary. Structural rules are validated against rustc on every run and every SAT model is replayed through rustc before it is reported.',
+                ref='DESIGN.md §3.2, §4 C11', category='model_checking',
+                note='Trusted base: z3 4.x (python API), cvc5 on a sample; tools/expander (compiles /repo/src/lib.rs with --cfg magiclen_educe_verif; only impl structure is read); structural rules for u8/NoImpl/Option/array/Box/PhantomData/tuple x 9 traits (validated by rustc each run); predicates outside the grammar are opaque atoms. Stand-alone Eq requires PartialEq of the fields, as README and the handler document.'),
+    'C12': dict(engine='E2-applicability', technique='SAT/SMT (z3, cvc5 cross-check) over impl applicability for every explicit bound mode; header parameter lists compared structurally',
+                text='For parameter lists mixing lifetimes, bounded and defaulted type parameters and const parameters, with user where-clauses, z3 decides for every trait and bound spelling (*, list, string, false, "", per-target Into bounds) that the emitted where-clause is equivalent to exactly the predicates the mode names plus the type\'s own bounds, over all instantiations; the impl header must repeat the parameters (minus defaults) in order.',
+                ref='DESIGN.md §3.2, §4 C12', category='model_checking',
+                note='As C11. "Header reproduces the parameters" is a list comparison done by the extractor, not a solver step (stated).'),
     'C14': dict(engine='E1-kani', technique='bounded model checking (Kani/CBMC, CaDiCaL): every spelling of a request discharged against the same config-derived oracle',
                 text='For requests from the C02/C03/C05/C06/C07/C08/C10 grammars with attributes at type, variant and field level, every documented spelling (each single alternative of each spelling group, one list vs several attributes in every rotation, random mixes) is decided equal to the same oracle for all values, hence all spellings are behaviourally equivalent. Token-for-token equality is not claimed.',
                 ref='DESIGN.md §4 C14',
@@ -61,7 +69,7 @@ NOT_APPLICABLE = {
     'C16': "the only varying input is std's per-process RandomState seed inside HashMap iteration; it cannot be made symbolic without executing the macro symbolically, which is unavailable here",
 }
 
-PENDING = {k: 'check not built yet at this commit (planned, see DESIGN.md §0); not claimed until it is' for k in ['C11','C12','C17','C18']}
+PENDING = {k: 'check not built yet at this commit (planned, see DESIGN.md §0); not claimed until it is' for k in ['C17','C18']}
 
 
 def build():
@@ -86,6 +94,8 @@ def build():
                    baseline_off_cmd='cd /repo && cargo test --workspace --no-fail-fast --offline',
                    source_commits=HOOK_COMMITS, add_only=True),
         engines=[
+            dict(name='E2-applicability', path='vk/e2.py', serves_properties=['C11', 'C12'],
+                 kind_free_text='own propositional encoder of impl applicability (z3/cvc5) over the where-clauses extracted from the real in-process expansion; rustc replay of models'),
             dict(name='E1-kani', path='vk/runner.py', serves_properties=sorted(k for k, c in CHECKS.items() if c['engine'].startswith('E1')),
                  kind_free_text='Kani/CBMC bounded model checking of the code educe generates for enumerated derive requests; symbolic values, variant pairs, bytes'),
         ],
@@ -96,7 +106,7 @@ def build():
     return man
 
 
-HOOK_COMMITS = []
+HOOK_COMMITS = ['9262abd']
 
 if __name__ == '__main__':
     man = build()
